@@ -791,7 +791,7 @@ fn main() {
     // RocksStore::open costs ~0.25 s in this sandbox: in the quick tier only the first logs of a
     // thread also go through RocksStore, all of them through MemStore.
     let logs_per_thread = args.pick(24usize, 160usize);
-    let rocks_logs_per_thread = args.pick(3usize, 16usize);
+    let rocks_logs_per_thread = args.pick(2usize, 16usize);
     let thorough = args.thorough();
     let parts = parallel(threads, seed, move |_ti, mut rng| {
         let mut out = Partial::default();
